@@ -91,7 +91,8 @@ def config(rng):
     cfg = ['relay=' + rng.choice(['none', 'none', 'listed', 'listed', 'unlisted', 'badsize', 'badprefix', 'unreadable']),
            'ip=' + rng.choice(['v4', 'v4', 'v6']),
            'databytes=' + rng.choice(['0', '0', '200', '1000'])]
-    plan = [rng.choice(['ok', 'ok', 'ok', 'exit:1', 'exit:10', 'exit:11', 'exit:31', 'exit:40', 'exit:41', 'exit:100', 'die:a:0:sig', 'die:a:0:53'])
+    plan = [rng.choice(['ok', 'ok', 'ok', 'exit:1', 'exit:10', 'exit:11', 'exit:31', 'exit:40', 'exit:41', 'exit:100', 'die:a:0:sig', 'die:a:0:53',
+                        'die:b:0:1', 'die:m:5:sig', 'die:m:150:2', 'ce:1', 'ce:0', 'die:e:1:sig'])
             for _ in range(6)]
     cfg.append('qq=' + ','.join(plan))
     return ';'.join(cfg)
@@ -111,6 +112,9 @@ def sensible(rng):
         if rng.random() < 0.3:
             chunks.insert(rng.randrange(1, len(chunks) + 1), rng.choice([b'RSET\r\n', b'EHLO again.example.net\r\n', b'HELO \r\n', b'NOOP\r\n', b'FOO\r\n']))
         chunks.append(b'DATA\r\n'); chunks.append(body(rng, rng.random() < 0.3))
+        if rng.random() < 0.35:
+            # carry on as if the transaction were still open (it must not be, whatever the outcome of DATA was)
+            chunks.append(rcpt(rng, 'ok')); chunks.append(b'DATA\r\n'); chunks.append(body(rng))
     if rng.random() < 0.5:
         chunks.append(b'QUIT\r\n')
     return chunks
